@@ -56,8 +56,22 @@ def build(t):
     if k == 'S':
         return P.SSubst(build(t[1]), P.SVar(t[2]), build(t[3]))
     if k == 'I':
-        return P.Instantiate(build(t[1]), frozendict({key: build(v) for key, v in t[2]}))
+        # an application of a registered notation uses that notation's definition OBJECT, as Notation.__call__ does
+        body = DEFS.get(PC.show(t[1]))
+        if body is None:
+            body = build(t[1])
+        return P.Instantiate(body, frozendict({key: build(v) for key, v in t[2]}))
     raise ValueError(t)
+
+
+DEFS = {}      # wire form of a registered notation's definition -> the definition object
+
+
+def register_def(nt):
+    try:
+        DEFS.setdefault(PC.show(unbuild(nt.definition)), nt.definition)
+    except (ValueError, KeyError):
+        pass
 
 
 def unbuild(p):
@@ -136,6 +150,7 @@ def run(line):
     if op == 'NOT':
         i = r.int()
         NOTS[i] = mk_notation(r)
+        register_def(NOTS[i])
         return 'OK'
     if op == 'NOTREF':       # the real shipped object, located by a Python expression
         i = r.int()
@@ -146,6 +161,7 @@ def run(line):
         import proof_generation.proofs.substitution as substitution
         NOTS[i] = eval(expr, {'pattern': P, 'definedness': definedness, 'kore': kore,
                               'propositional': propositional, 'substitution': substitution, 'Symbol': P.Symbol})
+        register_def(NOTS[i])
         return 'OK'
     r.next()  # flags (the implementation is what it is)
     if op == 'X':
@@ -255,6 +271,18 @@ def run(line):
         c = build(r.term())
         d = {k: build(v) for k, v in r.delta()}
         return show(BasicInterpreter(ExecutionPhase.Proof).instantiate(Proved(c), d).conclusion)
+    if op in ('DN', 'DNP'):
+        import proof_generation.proofs.kore as kore
+
+        def one(p):
+            h, args = kore.deconstruct_nary_application(p)
+            return 'H ' + show(h) + ' ' + tup(args)
+        if op == 'DN':
+            return one(build(r.term()))
+        a = build(r.term())
+        b = build(r.term())
+        kore.deconstruct_nary_application.cache_clear()     # the pair alone decides what the cache holds
+        return one(a) + ' | ' + one(b)
     if op in ('MPS', 'GENS', 'BIS'):
         from proof_generation.stateful_interpreter import StatefulInterpreter
         it = StatefulInterpreter(ExecutionPhase.Proof)
